@@ -5,7 +5,6 @@ import (
 	"encoding/json"
 	"errors"
 	"net/http"
-	"sync"
 
 	"github.com/samsarahq/thunder/batch"
 	"github.com/samsarahq/thunder/reactive"
@@ -90,12 +89,11 @@ func (h *httpHandler) ServeHTTP(w http.ResponseWriter, r *http.Request) {
 		return
 	}
 
-	var wg sync.WaitGroup
+	done := make(chan struct{})
 	e := h.executor
 
-	wg.Add(1)
 	runner := reactive.NewRerunner(r.Context(), func(ctx context.Context) (interface{}, error) {
-		defer wg.Done()
+		defer close(done)
 
 		ctx = batch.WithBatching(ctx)
 
@@ -128,6 +126,12 @@ func (h *httpHandler) ServeHTTP(w http.ResponseWriter, r *http.Request) {
 		return nil, nil
 	}, DefaultMinRerunInterval, false)
 
-	wg.Wait()
+	// The rerunner never runs the computation if the request's context is
+	// already cancelled, so waiting for the computation alone would block forever.
+	select {
+	case <-done:
+	case <-r.Context().Done():
+	}
+	// Stop waits for a computation that is still running.
 	runner.Stop()
 }
